@@ -49,6 +49,9 @@ def _form(kind: int, lab: str):
         rows = [{"type": "begin repeat", "name": "s", "label": "S"}, q, {"type": "end repeat"}, t]
     elif kind == 3:
         rows = [q, {"type": "begin repeat", "name": "s", "label": "S"}, t, {"type": "end repeat"}]
+    elif kind == 5:  # ${last-saved#...}: declares the last-saved secondary instance
+        rows = [q, {"type": "text", "name": "u", "label": "U", "default": "${last-saved#q}"}]
+        return {"survey": rows, "settings": [{"form_title": lab}]}
     else:  # a label with two instance() expressions (boundary detection + output insertion)
         n = {"type": "note", "name": "t", "label": "X instance('l1')/root/item[name='a']/label Y instance('l1')/root/item[name='b']/label"}
         rows = [q, {"type": "select_one l1", "name": "s", "label": "S"}, n]
@@ -84,6 +87,40 @@ specialise(
     symbolic="whether to_json_dict() is called between the xml() calls (boolean), a symbolic label/title character",
     bounds="xml() generated 3 times from the same survey object (translations, namespaces incl. entities, itext); form kind fixed per instance",
     weight=80,
+)
+
+
+def c14_documents(kind: int, same_survey: bool, l0: int) -> bool:
+    """
+    vpre: 97 <= l0 <= 122
+    vpost: _ == True
+    """
+    _clear_caches()
+    lab = S(l0, 66)
+    s1, _w, _js = build_survey(_form(kind, lab))
+    r1 = s1.xml()  # the document object is kept, as a caller of the Survey API would
+    snap = tree(r1)
+    if same_survey:
+        s2 = s1
+    else:
+        s2, _w2, _js2 = build_survey(_form(kind, lab))
+    r2 = s2.xml()
+    # generating a second document must not reach into the first one
+    return tree(r1) == snap and tree(r2) == snap
+
+
+specialise(
+    "C14",
+    "b.documents-independent",
+    c14_documents,
+    {"kind": [0, 4, 5]},
+    reach_if=lambda fx: fx["kind"] == 5,
+    timeout=400,
+    kernel=K[:5] + ("pyxform.survey:Survey._generate_instances", "pyxform.survey:Survey._get_last_saved_instance", "pyxform.utils:node"),
+    shims=("S1", "S3", "S4", "S12"),
+    symbolic="whether the second document comes from the same Survey object or from a second survey of the same form (boolean), a symbolic label/title character",
+    bounds="two XForm documents generated one after the other and both kept alive (form kinds: repeat+entities+namespaces, two instance() outputs, ${last-saved#} reference): the first document is unchanged by the second generation and both are equal",
+    weight=60,
 )
 
 
